@@ -117,28 +117,29 @@ def takeComments : Nat → List Char → List String → Option (List String × 
     | none => none
   | _ + 1, cs, acc => some (acc.reverse, cs)
 
+/-- the part of a node's text after its children: label, node comments, optional length, branch comments -/
+def readTail (depth : Nat) (kids : List TextNode) (r1 : List Char) : Option (List TextNode × List Char) :=
+  let (lab, r2) := takeWord r1 []
+  match takeComments (r2.length + 1) r2 [] with
+  | none => none
+  | some (ncs, r3) =>
+    let lenRes : Option String × List Char :=
+      match r3 with
+      | ':' :: r => let (w, r') := takeWord r []; (some (String.ofList w), r')
+      | _ => (none, r3)
+    match takeComments (lenRes.2.length + 1) lenRes.2 [] with
+    | none => none
+    | some (ecs, r5) => some (kids ++ [⟨depth, String.ofList lab, ncs, lenRes.1, ecs⟩], r5)
+
+/- the children part: "(" node {"," node} ")" or nothing -/
 mutual
 def readNode : Nat → Nat → List Char → Option (List TextNode × List Char)
   | 0, _, _ => none
-  | fuel + 1, depth, cs =>
-    let kidsRes : Option (List TextNode × List Char) :=
-      match cs with
-      | '(' :: r => readKids fuel (depth + 1) r []
-      | _ => some ([], cs)
-    match kidsRes with
+  | fuel + 1, depth, '(' :: r =>
+    match readKids fuel (depth + 1) r [] with
     | none => none
-    | some (kids, r1) =>
-      let (lab, r2) := takeWord r1 []
-      match takeComments (r2.length + 1) r2 [] with
-      | none => none
-      | some (ncs, r3) =>
-        let lenRes : Option String × List Char :=
-          match r3 with
-          | ':' :: r => let (w, r') := takeWord r []; (some (String.ofList w), r')
-          | _ => (none, r3)
-        match takeComments (lenRes.2.length + 1) lenRes.2 [] with
-        | none => none
-        | some (ecs, r5) => some (kids ++ [⟨depth, String.ofList lab, ncs, lenRes.1, ecs⟩], r5)
+    | some (kids, r1) => readTail depth kids r1
+  | _ + 1, depth, cs => readTail depth [] cs
 /-- after '(' : one or more nodes separated by ',' up to ')' -/
 def readKids : Nat → Nat → List Char → List TextNode → Option (List TextNode × List Char)
   | 0, _, _, _ => none
@@ -195,6 +196,11 @@ def decOK (s : String) (q : Rat) : Bool :=
     let mag := if q ≥ 0 then q else -q
     decide (diff * (4503599627370496 : Rat) ≤ mag)
 
+/-- split at the first '/': (before, after) -/
+def splitSlash : List Char → List Char → List Char × Option (List Char)
+  | [], acc => (acc.reverse, none)
+  | c :: r, acc => if c == '/' then (acc.reverse, some r) else splitSlash r (c :: acc)
+
 /-- the label the writer gives a node: its name, else support[/p-value] of its branch -/
 def labelOK (d : NodeD) (oe : Option EdgeD) (label : String) : Bool :=
   if d.name != "" then label == d.name
@@ -202,19 +208,24 @@ def labelOK (d : NodeD) (oe : Option EdgeD) (label : String) : Bool :=
     | none => label == ""
     | some e =>
       if e.sup == NIL then label == ""
-      else match label.splitOn "/" with
-        | [s] => e.pval == NIL && decOK s e.sup
-        | [s, p] => e.pval != NIL && decOK s e.sup && decOK p e.pval
-        | _ => false
+      else match splitSlash label.toList [] with
+        | (s, none) => e.pval == NIL && decOK (String.ofList s) e.sup
+        | (s, some p) => e.pval != NIL && decOK (String.ofList s) e.sup && decOK (String.ofList p) e.pval
 
 def nodeTextOK (x : ExpNode) (y : TextNode) : Bool :=
-  x.depth == y.depth && labelOK x.d x.e y.label && x.d.comments == y.ncomments &&
+  x.depth == y.depth && labelOK x.d x.e y.label &&
   (match x.e, y.len with
    | none, none => true
    | some e, none => e.len == NIL
    | some e, some l => e.len != NIL && decOK l e.len
    | none, some _ => false) &&
-  (match x.e with | none => y.ecomments.isEmpty | some e => e.comments == y.ecomments)
+  -- comments: a Newick text has one run of `[…]` after the label and one after the length; without a
+  -- length the two runs are one (the text cannot say where node comments end and branch comments begin)
+  (match x.e with
+   | none => x.d.comments == y.ncomments && y.ecomments.isEmpty
+   | some e =>
+     if e.len == NIL then x.d.comments ++ e.comments == y.ncomments && y.ecomments.isEmpty
+     else x.d.comments == y.ncomments && e.comments == y.ecomments)
 
 /-- Problems of the text (empty = the text, re-read, is the tree `t` with its shape,
     child order, names or supports, comments and lengths). -/
@@ -225,6 +236,72 @@ def textProblems (t : T) (text : String) : List String :=
     let ex := expPost 0 none t
     if ex.length != ns.length then ["the Newick text has " ++ toString ns.length ++ " nodes, the tree " ++ toString ex.length]
     else if (List.zipWith nodeTextOK ex ns).all id then [] else ["the Newick text re-read differs from the tree"]
+
+/- ## the pointer graph itself (first clause of the property), judged here and not by the harness
+
+  The harness prints, without judging it, the graph reachable from `Root()` through `Neigh()`:
+  node 0 is the root; `slots i` lists, for every position of node `i`, the neighbour, an identity
+  for the branch object, and what `Left()` / `Right()` of that branch point to. -/
+
+structure Slot where
+  nb : Int      -- index of neigh[i]   (-1 nil)
+  e : Int       -- identity of br[i]   (-1 nil)
+  l : Int       -- br[i].Left()        (-1 nil, -2 a node not reachable through Neigh())
+  r : Int       -- br[i].Right()
+  deriving Repr, BEq
+
+/-- `none` = the node's neigh and br slices have different lengths -/
+abbrev Graph := List (Option (List Slot))
+
+/-- Every way in which the graph fails to be a tree with symmetric adjacency whose branches all
+    point away from node 0 (empty = well formed).  All nodes are reachable from the root by
+    construction (breadth-first listing), so "connected" holds of what is listed; acyclicity is
+    `#branches = #nodes − 1` on a connected graph; orientation is "every node but the root is the
+    right end of exactly one of its branches, the root of none". -/
+def graphProblems (g : Graph) : List String :=
+  let n := g.length
+  let nodes : List (Nat × List Slot) := (List.range n).zip (g.map fun o => o.getD [])
+  let slots : List (Nat × Slot) := nodes.flatMap fun p => p.2.map fun s => (p.1, s)
+  let edgeIds := (slots.map (·.2.e)).eraseDups
+  (if n == 0 then ["no root"] else []) ++
+  (if g.any (·.isNone) then ["a node has neigh and br slices of different lengths"] else []) ++
+  (if slots.any (fun p => p.2.nb < 0 || p.2.e < 0) then ["nil neighbour or branch"] else []) ++
+  (if slots.all (fun p => (p.2.l == (p.1 : Int) && p.2.r == p.2.nb) || (p.2.l == p.2.nb && p.2.r == (p.1 : Int))) then []
+   else ["a branch does not join the node and the neighbour of its slot"]) ++
+  (if slots.all (fun p => slots.any fun q => (q.1 : Int) == p.2.nb && q.2.nb == (p.1 : Int) && q.2.e == p.2.e) then []
+   else ["adjacency is not symmetric (no back-pointer with the same branch)"]) ++
+  (if edgeIds.all (fun e => (slots.filter (·.2.e == e)).length == 2) then [] else ["a branch object does not sit in exactly two slots"]) ++
+  (if edgeIds.length + 1 == n then [] else ["not acyclic: branches != nodes - 1 in the connected graph"]) ++
+  (if nodes.all (fun p => (p.2.filter fun s => s.r == (p.1 : Int)).length == (if p.1 == 0 then 0 else 1)) then []
+   else ["a branch does not point away from the root"])
+
+/- ### the abstraction function α on the raw graph, in Lean (shape and parent positions)
+
+  The harness' walker reads a heap as a tree value; here the same reading is done by Lean on the raw
+  graph, so that "the α dump the oracles and ties work on is the tree this pointer graph is" is
+  evaluated in Lean on the real heap.  A tree is flattened to tokens `ppos, #kids, kid₁…, kid₂…`. -/
+
+def graphTokens (g : Graph) : Nat → Nat → Option Nat → Option (List Nat)
+  | 0, _, _ => none
+  | fuel + 1, i, par =>
+    match g[i]? with
+    | some (some slots) =>
+      let isPar (s : Slot) : Bool := match par with | none => false | some p => s.nb == (p : Int)
+      let pp := match par with | none => 0 | some _ => slots.findIdx isPar
+      let kidSlots := slots.filter fun s => !isPar s
+      (kidSlots.mapM fun s => graphTokens g fuel s.nb.toNat (some i)).map fun l => pp :: kidSlots.length :: l.flatten
+    | _ => none
+
+mutual
+def treeTokens : T → List Nat
+  | .node _ pp k => pp :: k.length :: treeTokensL k
+def treeTokensL : Kids → List Nat
+  | [] => []
+  | (_, t) :: r => treeTokens t ++ treeTokensL r
+end
+
+/-- the raw graph, read from node 0, is the tree `t` (shape, child order, parent positions) -/
+def graphIsTree (g : Graph) (t : T) : Bool := graphTokens g (g.length + 1) 0 none == some (treeTokens t)
 
 /- ## nothing gets lost: what an operation may do to the multiset of tip names
 
@@ -242,6 +319,7 @@ inductive TipEffect where
   | replace (tip : String) (by_ : List String)   -- GraftTreeOnTip
   | add (names : List String)              -- GraftTipOnEdge, Merge, InsertIdenticalTips
   | subtree (p : Path)                     -- SubTree
+  | subsetWith (extra : List String)       -- CollapseClade: a clade is replaced by one new tip
   | unknown
   deriving Repr
 
@@ -256,20 +334,24 @@ def tipEffectOK (eff : TipEffect) (before after : T) : Bool :=
   let tb := tipNamesD before
   let ta := tipNamesD after
   -- a root with at most one neighbour is a tip by degree only: when the operation changes its
-  -- degree it enters or leaves the list without any node being lost
-  let degenerate := before.kids.length ≤ 1 || after.kids.length ≤ 1
+  -- degree (or moves the root) that ONE name enters or leaves the list without any node being lost
+  let rootWasTip := before.kids.length ≤ 1
+  let rootIsTip := after.kids.length ≤ 1
   let eqTol (a b : List String) : Bool :=
-    sameNames a b || (degenerate && (sameNames a (b.erase before.name) || sameNames (a.erase after.name) b))
+    sameNames a b || (rootWasTip && sameNames a (b.erase before.name)) || (rootIsTip && sameNames (a.erase after.name) b) ||
+      (rootWasTip && rootIsTip && sameNames (a.erase after.name) (b.erase before.name))
+  let oldOr (x : String) : Bool := tb.contains x || (rootIsTip && x == after.name)
   match eff with
   | .same => eqTol ta tb
   | .sameCount => ta.length == tb.length
   | .keep names rev => eqTol ta (tb.filter fun x => names.contains x == rev)
-  | .subsetWithout names => ta.all (fun x => (tb.contains x || degenerate) && !names.contains x)
+  | .subsetWithout names => ta.all (fun x => oldOr x && !names.contains x)
   | .replace tip by_ => eqTol ta (tb.erase tip ++ by_)
   | .add names => eqTol ta (tb ++ names)
   | .subtree p => match subtreeAt before p with
     | some s => sameNames ta (tipNamesD s)
     | none => false
+  | .subsetWith extra => ta.all (fun x => oldOr x || extra.contains x)
   | .unknown => true
 
 end Gotree.C03
